@@ -93,7 +93,12 @@ Definition judge_emitted (file : list N) (o : lobs) : sx :=
         else if negb (Nss_eqb cs (l_consts m)) then v_bad "const-entries-differ" (Ax "consts")
         else if negb (sxs_eqb is (map instr_sx (l_instrs m))) then v_bad "instructions-differ" (Lx (map instr_sx (l_instrs m)))
         else if negb (sx_eqb re (Lx [Ax "same"])) then v_bad "reencode-differs" (Ax "same")
-        else match dec with Lx (Ax "ok" :: _) => v_ok "roundtrip" | _ => v_bad "constants-do-not-decode" (Ax "ok") end
+        else match dec with
+             | Lx (Ax "ok" :: _) => v_ok "roundtrip"
+             (* known finding: the compiler writes constants of kinds (tuples) for which the constant decoder has no arm *)
+             | Lx [Ax "err"; Qx "UnsupportedConstantType"] => v_kf "emitted-constant-undecodable"
+             | _ => v_bad "constants-do-not-decode" (Ax "ok")
+             end
     | LOk _ _ _ _ _, _ => v_bad "model-rejects-emitted-file" (Ax "model")
     | _, _ => v_bad "emitted-file-not-loaded" (Ax "ok")
     end.
